@@ -160,6 +160,19 @@ def seed():
     o = a["fields"]["blockdata1_head"][0]
     _write("lzx-multi-first-member-data-flip", a, ("flip", o + 30, 0), "reject",
            "LZX with two loadable entries: data of the first one (data CRC-32 mismatch must not fall through)", p)
+    # --- members inside directories (seeded defect m14: arc_read skipped the CRC-16 for members at level > 0)
+    for spark, depth, cid in ((False, 1, "arc6-dir-member-data-flip"), (True, 1, "spark-dir-member-data-flip"),
+                              (False, 2, "arc6-dir2-member-data-flip"), (True, 2, "spark-dir2-member-crc-flip")):
+        a = A.make_arc_nested(rng, p, spark, depth, method=2)
+        o = a["fields"]["blockdataN_head"][0]
+        flt = ("flip", a["crc_at"], 3) if cid.endswith("crc-flip") else ("flip", o + 1084 + 13, 4)
+        _write(cid, a, flt, "reject",
+               "seeded m14: members of %s directories (depth %d) were not CRC-16 checked (`level ? e.crc16 : arc_crc16(...)`)" % (
+                   "Spark" if spark else "ARC 6", depth), p)
+    a = A.make_arcfs_nested(rng, p, 1, method=2)
+    if a is not None:
+        _write("arcfs-dir-member-data-flip", a, ("flip", a["fields"]["blockdataN_head"][0] + 1084 + 3, 1), "reject",
+               "ArcFS member listed after a directory entry: data, one bit", p)
     # --- the corrupted file of libxmp's own test suite
     os.makedirs(DIR, exist_ok=True)
     with open(os.path.join(DIR, "repo-corrupted-gz.json"), "w") as f:
